@@ -560,7 +560,10 @@ impl Lexer<'_> {
             match mode {
                 LexerMode::ExpectSymbol(tok_type, tok_channel) => {
                     // If we were expecting a token - call lexing that will effectively
-                    // emit an error and the token
+                    // emit an error and the token. It also pops the mode it handles,
+                    // which we have already done above, so put it back first - otherwise
+                    // the next pending mode would be lost without being finalized
+                    self.push_mode(LexerMode::ExpectSymbol(tok_type, tok_channel));
                     self.lex_expected_token(None, tok_type, tok_channel);
                 }
                 LexerMode::ExpectSemiOrEOF | LexerMode::MacroDo => {
